@@ -74,6 +74,7 @@ func checkC16(w *World, r *Report) {
 	r.Rule("R16.5", "upstream attempts do not share mutable TLS configuration", 3)
 	r.Rule("R16.6", "a closed carrier is seen as closed: the wrappers' Close sets the flag on every path (the reuse test consults Closed())", 2)
 	ruleSafeCloseSetsFlag(w, r, "R16.6")
+	r.Rule("R16.10", "whenever no usable session exists, Connect runs the round over the upstreams (no hold-off turns a connection away)", 1)
 	r.Rule("R16.9", "the direct forward address is dialled for every stream network it can name", 1)
 	c16DirectDialCoversStreamNetworks(w, r)
 	r.Rule("R16.8", "settling on an upstream after a failover is reported as success (no stale error of an earlier upstream)", 1)
@@ -167,6 +168,7 @@ func checkC16(w *World, r *Report) {
 
 	// ---- R16.3
 	c16Shared(w, r, uc, openM)
+	c16NoRoundIsSkipped(w, r, uc, openM)
 
 	// ---- R16.4
 	c16Timeout(w, r)
@@ -320,7 +322,9 @@ func c16Failover(w *World, r *Report, openM *types.Func) {
 	r.Check(bad8 == "" && nsucc > 0, "R16.8", key8, w.Pos(openM.Pos()), fmt.Sprintf("%d path(s) end after a successful Connect; each returns nil or the error of a later step", nsucc), bad8+mapStr(nsucc == 0, "no path on which Connect succeeds"))
 }
 
-func c16Shared(w *World, r *Report, uc, openM *types.Func) { ruleSharedSession(w, r, "R16.3", uc, openM) }
+func c16Shared(w *World, r *Report, uc, openM *types.Func) {
+	ruleSharedSession(w, r, "R16.3", uc, openM)
+}
 
 func ruleSharedSession(w *World, r *Report, rule string, uc, openM *types.Func) {
 	ups := w.Named("internal/client/upstream", "Upstreams")
@@ -428,72 +432,98 @@ func ruleSharedSession(w *World, r *Report, rule string, uc, openM *types.Func) 
 		r.Violate(rule, key, w.Pos(uc.Pos()), "Connect never opens a physical connection")
 		return
 	}
-	// open is reached only when connection == nil or connection.Closed()
+	// open is reached only when connection == nil or connection.Closed(); where open is called from a helper that
+	// does not make the test itself, every call of that helper must be guarded in its caller
 	okGuard := true
 	staleGuard := false
-	region := getRegion(fn)
 	nopen := 0
-	enumPaths(fn, nil, nil, func(in ssa.Instruction) bool { return in == openCall }, func(e pathExit) {
-		if e.Stop == nil {
-			return
-		}
-		nopen++
-		just := false
-		// a predicate helper called inside the critical section: `if ul.disconnected() { ... }`
-		for v, t := range e.State.Facts {
-			hc, ok := v.(*ssa.Call)
-			if !ok || !region[hc] {
-				continue
+	var guardedAt func(fn *ssa.Function, stop ssa.Instruction, depth int)
+	guardedAt = func(fn *ssa.Function, stop ssa.Instruction, depth int) {
+		region := getRegion(fn)
+		localOk := true
+		enumPaths(fn, nil, nil, func(in ssa.Instruction) bool { return in == stop }, func(e pathExit) {
+			if e.Stop == nil {
+				return
 			}
-			h := hc.Call.StaticCallee()
-			if h == nil || !inModule(h) {
-				continue
-			}
-			if predicateHelperImplies(h, t, func(facts map[ssa.Value]bool) bool {
-				for v2, t2 := range facts {
-					if x, eq, ok := nilTest(v2); ok && t2 == eq && isLoadOfField(x, connF) {
-						return true
+			nopen++
+			just := false
+			// a predicate helper called inside the critical section: `if ul.disconnected() { ... }`
+			for v, t := range e.State.Facts {
+				hc, ok := v.(*ssa.Call)
+				if !ok || !region[hc] {
+					continue
+				}
+				h := hc.Call.StaticCallee()
+				if h == nil || !inModule(h) {
+					continue
+				}
+				if predicateHelperImplies(h, t, func(facts map[ssa.Value]bool) bool {
+					for v2, t2 := range facts {
+						if x, eq, ok := nilTest(v2); ok && t2 == eq && isLoadOfField(x, connF) {
+							return true
+						}
+						if c, ok := v2.(*ssa.Call); ok && t2 && c.Call.IsInvoke() && c.Call.Method.Name() == "Closed" {
+							for _, root := range provenance(c.Call.Value, provOpts{}) {
+								if isLoadOfField(root, connF) {
+									return true
+								}
+							}
+						}
 					}
-					if c, ok := v2.(*ssa.Call); ok && t2 && c.Call.IsInvoke() && c.Call.Method.Name() == "Closed" {
-						for _, root := range provenance(c.Call.Value, provOpts{}) {
-							if isLoadOfField(root, connF) {
-								return true
+					return false
+				}) {
+					just = true
+				}
+			}
+			for v, t := range e.State.Facts {
+				// the test must look at the shared field while the mutex is held: a test made before Lock() is
+				// stale by the time the lock is obtained (every waiting caller has already decided to dial)
+				if x, eq, ok := nilTest(v); ok && t == eq && isLoadOfField(x, connF) {
+					if xi, ok := x.(ssa.Instruction); ok && region[xi] {
+						just = true
+					} else {
+						staleGuard = true
+					}
+				}
+				if c, ok := v.(*ssa.Call); ok && t && c.Call.IsInvoke() && c.Call.Method.Name() == "Closed" {
+					for _, root := range provenance(c.Call.Value, provOpts{}) {
+						if isLoadOfField(root, connF) {
+							if region[c] {
+								just = true
+							} else {
+								staleGuard = true
 							}
 						}
 					}
 				}
-				return false
-			}) {
-				just = true
 			}
+			if !just {
+				localOk = false
+			}
+		})
+		if localOk {
+			return
 		}
-		for v, t := range e.State.Facts {
-			// the test must look at the shared field while the mutex is held: a test made before Lock() is
-			// stale by the time the lock is obtained (every waiting caller has already decided to dial)
-			if x, eq, ok := nilTest(v); ok && t == eq && isLoadOfField(x, connF) {
-				if xi, ok := x.(ssa.Instruction); ok && region[xi] {
-					just = true
-				} else {
-					staleGuard = true
-				}
-			}
-			if c, ok := v.(*ssa.Call); ok && t && c.Call.IsInvoke() && c.Call.Method.Name() == "Closed" {
-				for _, root := range provenance(c.Call.Value, provOpts{}) {
-					if isLoadOfField(root, connF) {
-						if region[c] {
-							just = true
-						} else {
-							staleGuard = true
-						}
-					}
+		obj, _ := fn.Object().(*types.Func)
+		if fn == connFn || obj == nil || depth >= 2 {
+			okGuard = false
+			return
+		}
+		n := 0
+		for caller := range mods {
+			for _, c := range callsIn(caller) {
+				if sCallee(c) == obj && !c.Common().IsInvoke() {
+					n++
+					guardedAt(caller, c, depth+1)
 				}
 			}
 		}
-		if !just {
+		if n == 0 {
 			okGuard = false
 		}
-	})
-	inRegion := region[openCall]
+	}
+	guardedAt(fn, openCall, 0)
+	inRegion := heldAt(openCall, 0)
 	if !okGuard && staleGuard {
 		r.Violate(rule, key, w.Pos(openCall.Pos()), "the reuse test (connection == nil || connection.Closed()) is evaluated before the mutex is taken and not repeated under it: callers that arrive while no session is up all decide to dial, each replaces the shared connection/session in turn — several physical sessions instead of one, and streams opened on a session that was just replaced")
 		return
